@@ -61,8 +61,37 @@ pub fn xor_shaped_addr(rng: &mut StdRng, tid: TransactionId) -> SocketAddr {
     SocketAddr::from((ip, rng.gen::<u16>()))
 }
 
+/// text with the characters that string-preparation profiles (SASLprep, PRECIS OpaqueString, NFKC, case folding) would map,
+/// drop or refuse: the key derivation takes the bytes as they are
+pub fn rand_prep_text(rng: &mut StdRng, nchars: usize) -> String {
+    let pool = ['a', 'B', ' ', '\u{a0}', '\u{1680}', '\u{2003}', '\u{200a}', '\u{202f}', '\u{205f}', '\u{3000}', '\u{ad}', '\u{200b}',
+                '\u{200d}', '\u{feff}', '\u{fb01}', '\u{ff21}', '\u{b2}', '\u{212b}', 'e', '\u{301}', '\u{130}', '\u{df}', '\u{212a}',
+                '\t', '\r', '\n', '\u{200f}', '\u{1f600}', '\u{e9}', ':'];
+    (0..nchars).map(|_| *pool.choose(rng).unwrap()).collect()
+}
+
+/// what a string-preparation step might turn the text into (another key unless the text is unaffected)
+pub fn prepped(s: &str, how: usize) -> String {
+    match how {
+        0 => s.chars().map(|c| if c.is_whitespace() { ' ' } else { c }).collect(),
+        1 => s.chars().filter(|c| !matches!(*c, '\u{ad}' | '\u{200b}' | '\u{200d}' | '\u{feff}' | '\u{200f}')).collect(),
+        2 => s.to_lowercase(),
+        3 => s.trim().to_string(),
+        _ => s.replace("e\u{301}", "\u{e9}").replace('\u{fb01}', "fi").replace('\u{ff21}', "A").replace('\u{212b}', "\u{c5}").replace('\u{212a}', "K").replace('\u{b2}', "2"),
+    }
+}
+
 pub fn rand_cred(rng: &mut StdRng) -> CredDesc {
     let n = |rng: &mut StdRng| *[0usize, 1, 2, 5, 20, 63, 64, 65, 100].choose(rng).unwrap();
+    if rng.gen_bool(0.3) {
+        let k = |rng: &mut StdRng| *[1usize, 2, 3, 8, 30].choose(rng).unwrap();
+        return if rng.gen_bool(0.5) {
+            CredDesc { long: false, user: String::new(), realm: String::new(), password: { let x = k(rng); rand_prep_text(rng, x) } }
+        } else {
+            let (a, b, c) = (k(rng), k(rng), k(rng));
+            CredDesc { long: true, user: rand_prep_text(rng, a), realm: rand_prep_text(rng, b), password: rand_prep_text(rng, c) }
+        };
+    }
     if rng.gen_bool(0.5) {
         CredDesc { long: false, user: String::new(), realm: String::new(), password: { let k = n(rng); rand_utf8(rng, k) } }
     } else {
@@ -267,6 +296,13 @@ pub fn main_gen(args: &[String]) {
             others.push(CredDesc { long: false, ..cred.clone() });
         } else {
             others.push(CredDesc { long: true, user: "u".into(), realm: "r".into(), password: cred.password.clone() });
+        }
+        // credentials that a string-preparation step would make equal to the sealing ones
+        for how in 0..5 {
+            let o = CredDesc { long: cred.long, user: prepped(&cred.user, how), realm: prepped(&cred.realm, how), password: prepped(&cred.password, how) };
+            if (o.user != cred.user || o.realm != cred.realm || o.password != cred.password) && others.len() < 6 {
+                others.push(o);
+            }
         }
         let mut creds = vec![cred_json(&cred)];
         creds.extend(others.iter().map(cred_json));
